@@ -38,6 +38,13 @@ macro_rules! opaque_copy_key {
 }
 opaque_copy_key!(ObjectUuid);
 opaque_copy_key!(ServiceUuid);
+opaque_copy_key!(ObjectCookie);
+opaque_copy_key!(ServiceCookie);
+
+// the real id structs and bus events (core/src/ids/*.rs, core/src/bus_listener.rs)
+//@item core/src/ids/object_id.rs struct ObjectId attr=derive(Clone,Copy)
+//@item core/src/ids/service_id.rs struct ServiceId attr=derive(Clone,Copy)
+//@item core/src/bus_listener.rs enum BusEvent attr=derive(Clone,Copy)
 
 // the real filter types (core/src/bus_listener.rs). #[derive(PartialEq, Eq, Hash)] = structural equality with a consistent
 // hash: ASSUMED (eq_spec below, key-model axiom)
@@ -72,6 +79,64 @@ broadcast use {trusted::axiom_filter_key_model, vstd::std_specs::hash::group_has
 
 // ---- extracted ---------------------------------------------------------------------------------
 //@item core/src/bus_listener.rs enum BusListenerScope attr=derive(Clone,Copy)
+// #[derive(PartialEq)] on BusListenerScope is structural equality. ASSUMED.
+impl PartialEqSpecImpl for BusListenerScope {
+    open spec fn obeys_eq_spec() -> bool { true }
+    open spec fn eq_spec(&self, other: &Self) -> bool { *self == *other }
+}
+impl PartialEq for BusListenerScope {
+    #[verifier::external_body]
+    fn eq(&self, other: &Self) -> (r: bool) { unimplemented!() }
+}
+
+// ---- the filter predicate, written from the property statement (the same specification the Kani harnesses
+// C10.filter_matches_* check against the compiled code for all inputs) -------------------------------------------
+pub open spec fn spec_service_filter_matches(f: BusListenerServiceFilter, id: ServiceId) -> bool {
+    &&& (f.object matches Some(o) ==> id.object_id.uuid == o)
+    &&& (f.service matches Some(s) ==> id.uuid == s)
+}
+pub open spec fn spec_matches_object(f: BusListenerFilter, object: ObjectId) -> bool {
+    f matches BusListenerFilter::Object(o) && (o matches Some(u) ==> object.uuid == u)
+}
+pub open spec fn spec_matches_service(f: BusListenerFilter, service: ServiceId) -> bool {
+    f matches BusListenerFilter::Service(sf) && spec_service_filter_matches(sf, service)
+}
+pub open spec fn spec_matches_event(f: BusListenerFilter, event: BusEvent) -> bool {
+    match event {
+        BusEvent::ObjectCreated(o) => spec_matches_object(f, o),
+        BusEvent::ObjectDestroyed(o) => spec_matches_object(f, o),
+        BusEvent::ServiceCreated(s) => spec_matches_service(f, s),
+        BusEvent::ServiceDestroyed(s) => spec_matches_service(f, s),
+    }
+}
+
+impl BusListenerScope {
+    //@fn core/src/bus_listener.rs BusListenerScope::includes_current
+        ensures r == (self == BusListenerScope::Current || self == BusListenerScope::All),
+    //@end
+    //@fn core/src/bus_listener.rs BusListenerScope::includes_new
+        ensures r == (self == BusListenerScope::New || self == BusListenerScope::All),
+    //@end
+}
+
+impl BusListenerServiceFilter {
+    //@fn core/src/bus_listener.rs BusListenerServiceFilter::matches
+        ensures r == spec_service_filter_matches(self, id),
+    //@end
+}
+
+impl BusListenerFilter {
+    //@fn core/src/bus_listener.rs BusListenerFilter::matches_object
+        ensures r == spec_matches_object(self, object),
+    //@end
+    //@fn core/src/bus_listener.rs BusListenerFilter::matches_service
+        ensures r == spec_matches_service(self, service),
+    //@end
+    //@fn core/src/bus_listener.rs BusListenerFilter::matches_event
+        ensures r == spec_matches_event(self, event),
+    //@end
+}
+
 //@item broker/src/bus_listener.rs struct BusListener
 
 impl BusListener {
@@ -156,6 +221,76 @@ impl BusListener {
         proof { lemma_iter_covers(it.seq(), self.filters@); lemma_iter_step(it.seq(), it.index()); assert(f == it.seq()[it.index()]); }
     //@ghost? before `__vp_all1 = false;`
         proof { assert(self.filters@.contains(*f)); assert(!Self::is_specific_service(*f)); }
+    //@end
+
+    // some filter of the set matches (the plain filter semantics of the property statement)
+    spec fn some_filter_matches_object(&self, object: ObjectId) -> bool {
+        exists|f: BusListenerFilter| self.filters@.contains(f) && spec_matches_object(f, object)
+    }
+    spec fn some_filter_matches_service(&self, service: ServiceId) -> bool {
+        exists|f: BusListenerFilter| self.filters@.contains(f) && spec_matches_service(f, service)
+    }
+    spec fn some_filter_matches_event(&self, event: BusEvent) -> bool {
+        exists|f: BusListenerFilter| self.filters@.contains(f) && spec_matches_event(f, event)
+    }
+
+    // the cached any-object flag short-cuts the scan: right only because of flags_ok
+    //@fn broker/src/bus_listener.rs BusListener::matches_object iter-any-all
+        requires self.flags_ok(),
+        ensures r == self.some_filter_matches_object(object),
+    //@ghost before `self.matches_all_objects`
+        proof {
+            if self.matches_all_objects {
+                assert(self.filters@.contains(BusListenerFilter::Object(None)) && spec_matches_object(BusListenerFilter::Object(None), object));
+            }
+        }
+    //@loop 0 it
+        invariant
+            it.seq().no_duplicates(), it.seq().len() == self.filters@.len(),
+            forall|x: BusListenerFilter| self.filters@.contains(x) ==> #[trigger] it.seq().contains(&x),
+            __vp_any0 ==> self.some_filter_matches_object(object),
+            !__vp_any0 ==> forall|x: BusListenerFilter| #![trigger self.filters@.contains(x)]
+                self.filters@.contains(x) && spec_matches_object(x, object) ==> in_rest(it.seq(), it.index(), &x),
+        ensures !__vp_any0 ==> it.index() == it.seq().len(),
+    //@ghost loop-start 0
+        proof { lemma_iter_covers(it.seq(), self.filters@); lemma_iter_step(it.seq(), it.index()); assert(__vp_e0 == it.seq()[it.index()]); }
+    //@ghost before `__vp_any0 = true;`
+        proof { assert(self.filters@.contains(filter) && spec_matches_object(filter, object)); }
+    //@end
+
+    //@fn broker/src/bus_listener.rs BusListener::matches_service iter-any-all
+        ensures r == self.some_filter_matches_service(service),
+    //@loop 0 it
+        invariant
+            it.seq().no_duplicates(), it.seq().len() == self.filters@.len(),
+            forall|x: BusListenerFilter| self.filters@.contains(x) ==> #[trigger] it.seq().contains(&x),
+            __vp_any0 ==> self.some_filter_matches_service(service),
+            !__vp_any0 ==> forall|x: BusListenerFilter| #![trigger self.filters@.contains(x)]
+                self.filters@.contains(x) && spec_matches_service(x, service) ==> in_rest(it.seq(), it.index(), &x),
+        ensures !__vp_any0 ==> it.index() == it.seq().len(),
+    //@ghost loop-start 0
+        proof { lemma_iter_covers(it.seq(), self.filters@); lemma_iter_step(it.seq(), it.index()); assert(__vp_e0 == it.seq()[it.index()]); }
+    //@ghost before `__vp_any0 = true;`
+        proof { assert(self.filters@.contains(filter) && spec_matches_service(filter, service)); }
+    //@end
+
+    // a started listener whose scope includes new entities reports an event iff some filter matches it; a listener that is
+    // not started (or started for current entities only) reports nothing
+    //@fn broker/src/bus_listener.rs BusListener::matches_new_event iter-any-all
+        ensures r == (self.scope matches Some(sc) && (sc == BusListenerScope::New || sc == BusListenerScope::All)
+                      && self.some_filter_matches_event(event)),
+    //@loop 0 it
+        invariant
+            it.seq().no_duplicates(), it.seq().len() == self.filters@.len(),
+            forall|x: BusListenerFilter| self.filters@.contains(x) ==> #[trigger] it.seq().contains(&x),
+            __vp_any0 ==> self.some_filter_matches_event(event),
+            !__vp_any0 ==> forall|x: BusListenerFilter| #![trigger self.filters@.contains(x)]
+                self.filters@.contains(x) && spec_matches_event(x, event) ==> in_rest(it.seq(), it.index(), &x),
+        ensures !__vp_any0 ==> it.index() == it.seq().len(),
+    //@ghost loop-start 0
+        proof { lemma_iter_covers(it.seq(), self.filters@); lemma_iter_step(it.seq(), it.index()); assert(__vp_e0 == it.seq()[it.index()]); }
+    //@ghost before `__vp_any0 = true;`
+        proof { assert(self.filters@.contains(filter) && spec_matches_event(filter, event)); }
     //@end
 
     //@fn broker/src/bus_listener.rs BusListener::conn_id
